@@ -11,7 +11,8 @@ import time
 from collections import Counter
 
 VERIF = os.path.dirname(os.path.dirname(os.path.abspath(__file__)))
-TARGET = os.path.join(VERIF, ".target")
+TARGET = os.environ.get("VDRV_TARGET") or os.path.join(VERIF, ".target")   # where the driver binaries are
+OUT = os.environ.get("VERIF_OUT") or VERIF                                    # where evidence/ and new replays/ go
 
 
 class DriverDied(Exception):
@@ -287,11 +288,13 @@ class Part:
 
 
 class Ctx:
-    def __init__(self, prop, tier, seed, level="exploration"):
+    def __init__(self, prop, tier, seed, level="exploration", worker=0, workers=1):
         self.prop = prop
         self.tier = tier
         self.seed = seed
         self.level = level
+        self.w = worker          # this process is worker w of W (thorough tier fans out)
+        self.W = workers
         self.t0 = time.monotonic()
         self.drivers = {}
         self.evaluations = 0
@@ -328,7 +331,17 @@ class Ctx:
         return thorough if self.tier == "thorough" else quick
 
     def rng(self, tag=""):
-        return random.Random("%s/%s/%s" % (self.prop, self.seed, tag))
+        return random.Random("%s/%s/%s/%s" % (self.prop, self.seed, tag, self.w))
+
+    def share(self, n):
+        """This worker's share of n cases."""
+        return (n + self.W - 1) // self.W
+
+    def mine(self, iterable):
+        """This worker's share of an enumeration (every W-th element)."""
+        for i, x in enumerate(iterable):
+            if i % self.W == self.w:
+                yield x
 
     def log(self, *a):
         if not self.quiet:
@@ -365,7 +378,7 @@ class Ctx:
             return False
         rec = {"property": self.prop, "part": part, "case": case, "failure": fail.to_json(),
                "responses": responses, "choices": choices, "seed": self.seed, "tier": self.tier}
-        d = os.path.join(VERIF, "replays", self.prop)
+        d = os.path.join(OUT, "replays", self.prop)
         os.makedirs(d, exist_ok=True)
         path = os.path.join(d, "%s-%s.json" % (part.replace("/", "_"), h([part, case])))
         with open(path, "w") as f:
@@ -403,6 +416,7 @@ class Ctx:
         self.register(part)
         rnd = self.rng(part.name)
         done = 0
+        n = self.share(n)
         while done < n and not self.stop():
             k = min(batch, n - done)
             cases, choices = [], []
@@ -489,7 +503,7 @@ class Ctx:
             total += len(buf)
             buf.clear()
 
-        for c in cases:
+        for c in self.mine(cases):
             buf.append(c)
             if len(buf) >= batch:
                 flush()
@@ -497,7 +511,7 @@ class Ctx:
                     break
         if not self.stop():
             flush()
-        self.enumeration(name or part.name, total, exhaustive and not self.stop())
+        self.enumeration(name or part.name, total, exhaustive and not self.stop() and self.W == 1)
         return total
 
     def replay_dir(self):
@@ -529,35 +543,89 @@ class Ctx:
         return 1
 
     # -- finishing
-    def finish(self):
-        wall = time.monotonic() - self.t0
-        for d in self.drivers.values():
-            d.stop()
-        for sig, seen in sorted(self.known_seen.items()):
-            k = self.open_sigs[sig]
-            print("KNOWN-FINDING: property=%s %s [%s] (seen %d times this run)" % (self.prop, k.get("what", sig), sig,
-                                                                                 self.excluded_known[sig]), flush=True)
-        cov = {
-            "evaluations": int(self.evaluations),
-            "distinct_nontrivial": len(self.nontrivial),
-            "rule": self.rule,
-            "samples": self.samples[:24] if self.samples else [],
-            "classes": dict(self.classes.most_common(80)),
-            "excluded_known": dict(self.excluded_known),
-            "enumerations": self.enumerations,
-            "exhaustive": False,
+    def result(self):
+        return {
+            "evaluations": int(self.evaluations), "nontrivial": sorted(self.nontrivial), "rule": self.rule,
+            "samples": self.samples[:24], "classes": dict(self.classes), "excluded_known": dict(self.excluded_known),
+            "known_seen": self.known_seen, "enumerations": self.enumerations, "violations": self.violations,
             "driver_requests": sum(d.requests for d in self.drivers.values()),
             "driver_restarts": sum(d.restarts for d in self.drivers.values()),
+            "extra": self.extra, "assumptions": self.assumptions, "wall": time.monotonic() - self.t0,
         }
-        cov.update(self.extra)
-        ev = {"property_id": self.prop, "tier": self.tier, "seed": int(self.seed), "level": self.level, "coverage": cov,
-              "assumptions": self.assumptions, "wall_s": round(wall, 2), "violations": len(self.violations)}
-        os.makedirs(os.path.join(VERIF, "evidence"), exist_ok=True)
-        with open(os.path.join(VERIF, "evidence", self.prop + ".json"), "w") as f:
-            json.dump(ev, f, indent=1, ensure_ascii=True, default=str)
-        self.log("evaluations=%d distinct_nontrivial=%d violations=%d known=%s wall=%.1fs" % (
-            self.evaluations, len(self.nontrivial), len(self.violations), dict(self.excluded_known), wall))
-        return 1 if self.violations else 0
+
+    def finish(self):
+        for d in self.drivers.values():
+            d.stop()
+        res = self.result()
+        if self.W > 1:
+            d = os.path.join(TARGET, "partials")
+            os.makedirs(d, exist_ok=True)
+            with open(os.path.join(d, "%s.%d.json" % (self.prop, self.w)), "w") as f:
+                json.dump(res, f, default=str)
+            self.log("worker %d/%d: evaluations=%d violations=%d" % (self.w, self.W, self.evaluations, len(self.violations)))
+            return 1 if self.violations else 0
+        return finalize(self.prop, self.tier, self.seed, self.level, [res], self.open_sigs)
+
+
+def finalize(prop, tier, seed, level, results, open_sigs, wall=None):
+    """Merges worker results, prints KNOWN-FINDING lines, writes the evidence file."""
+    evaluations = sum(r["evaluations"] for r in results)
+    nontrivial = set()
+    classes, excluded = Counter(), Counter()
+    samples, enumerations, violations, known_seen, extra, assumptions = [], [], [], {}, {}, []
+    for r in results:
+        nontrivial.update(r["nontrivial"])
+        classes.update(r["classes"])
+        excluded.update(r["excluded_known"])
+        violations.extend(r["violations"])
+        for k, v in r["known_seen"].items():
+            known_seen.setdefault(k, v)
+        for k, v in r["extra"].items():
+            if isinstance(v, (int, float)) and not isinstance(v, bool) and k in extra:
+                extra[k] += v
+            else:
+                extra.setdefault(k, v)
+        assumptions = assumptions or r["assumptions"]
+    # samples: round-robin over workers; enumerations: merged by name
+    for i in range(24):
+        for r in results:
+            if i < len(r["samples"]) and len(samples) < 24:
+                samples.append(r["samples"][i])
+    by_name = {}
+    for r in results:
+        for e in r["enumerations"]:
+            b = by_name.setdefault(e["name"], {"name": e["name"], "size": 0, "exhaustive": e["exhaustive"] or len(results) > 1})
+            b["size"] += e["size"]
+    for b in by_name.values():
+        if len(results) > 1:
+            b["exhaustive"] = bool(b.get("exhaustive")) and not violations
+    enumerations = list(by_name.values())
+    for sig in sorted(known_seen):
+        k = open_sigs.get(sig, {})
+        print("KNOWN-FINDING: property=%s %s [%s] (seen %d times this run)" % (prop, k.get("what", sig), sig, excluded[sig]), flush=True)
+    w = wall if wall is not None else max(r["wall"] for r in results)
+    cov = {
+        "evaluations": int(evaluations),
+        "distinct_nontrivial": len(nontrivial),
+        "rule": results[0]["rule"],
+        "samples": samples,
+        "classes": dict(classes.most_common(100)),
+        "excluded_known": dict(excluded),
+        "enumerations": enumerations,
+        "exhaustive": False,
+        "workers": len(results),
+        "driver_requests": sum(r["driver_requests"] for r in results),
+        "driver_restarts": sum(r["driver_restarts"] for r in results),
+    }
+    cov.update(extra)
+    ev = {"property_id": prop, "tier": tier, "seed": int(seed), "level": level, "coverage": cov,
+          "assumptions": assumptions, "wall_s": round(w, 2), "violations": len(violations)}
+    os.makedirs(os.path.join(OUT, "evidence"), exist_ok=True)
+    with open(os.path.join(OUT, "evidence", prop + ".json"), "w") as f:
+        json.dump(ev, f, indent=1, ensure_ascii=True, default=str)
+    print("[%s] tier=%s seed=%s evaluations=%d distinct_nontrivial=%d violations=%d known=%s wall=%.1fs" % (
+        prop, tier, seed, evaluations, len(nontrivial), len(violations), dict(excluded), w), flush=True)
+    return 1 if violations else 0
 
 
 def main(prop_module, argv=None):
@@ -566,8 +634,16 @@ def main(prop_module, argv=None):
     ap.add_argument("--tier", default=os.environ.get("VERIF_TIER", "quick"))
     ap.add_argument("--seed", type=int, default=int(os.environ.get("VERIF_SEED", "0") or 0))
     ap.add_argument("--replay", default=None)
+    ap.add_argument("--worker", type=int, default=None)
+    ap.add_argument("--workers", type=int, default=None)
     a = ap.parse_args(argv)
-    ctx = Ctx(prop_module.PROP, a.tier, a.seed, getattr(prop_module, "LEVEL", "exploration"))
+    prop = prop_module.PROP
+    level = getattr(prop_module, "LEVEL", "exploration")
+    nworkers = a.workers if a.workers is not None else (getattr(prop_module, "WORKERS", 14) if a.tier == "thorough" else
+                                                        getattr(prop_module, "QUICK_WORKERS", 1))
+    if a.replay is None and a.worker is None and nworkers > 1:
+        return fan_out(prop_module, prop, level, a.tier, a.seed, nworkers)
+    ctx = Ctx(prop, a.tier, a.seed, level, worker=a.worker or 0, workers=nworkers if a.worker is not None else 1)
     try:
         if a.replay:
             prop_module.setup(ctx)
@@ -589,7 +665,8 @@ def main(prop_module, argv=None):
             print("VIOLATION property=%s replay=%s\n  %s" % (ctx.prop, a.replay, fl.msg))
             return 1
         prop_module.setup(ctx)
-        ctx.replay_dir()
+        if ctx.w == 0:
+            ctx.replay_dir()
         if not ctx.stop():
             prop_module.run(ctx)
         return ctx.finish()
@@ -598,3 +675,36 @@ def main(prop_module, argv=None):
         for d in ctx.drivers.values():
             d.stop()
         return 2
+
+
+def fan_out(prop_module, prop, level, tier, seed, nworkers):
+    """Thorough tier: W worker processes (own driver each), merged evidence."""
+    t0 = time.monotonic()
+    pdir = os.path.join(TARGET, "partials")
+    os.makedirs(pdir, exist_ok=True)
+    for w in range(nworkers):
+        try:
+            os.remove(os.path.join(pdir, "%s.%d.json" % (prop, w)))
+        except OSError:
+            pass
+    procs = []
+    for w in range(nworkers):
+        cmd = [sys.executable, "-m", prop_module.__spec__.name if prop_module.__spec__ else "pbt.props." + prop.lower(),
+               "--tier", tier, "--seed", str(seed), "--worker", str(w), "--workers", str(nworkers)]
+        procs.append(subprocess.Popen(cmd, cwd=VERIF))
+    codes = [p.wait() for p in procs]
+    results = []
+    for w in range(nworkers):
+        p = os.path.join(pdir, "%s.%d.json" % (prop, w))
+        if os.path.exists(p):
+            with open(p) as f:
+                results.append(json.load(f))
+    known = {k["signature"]: k for k in load_known() if k.get("property") == prop and k.get("status") == "open"}
+    if not results:
+        print("INCONCLUSIVE: no worker produced a result (exit codes %s)" % codes, flush=True)
+        return 2
+    rc = finalize(prop, tier, seed, level, results, known, wall=time.monotonic() - t0)
+    if rc == 0 and any(c not in (0, 1) for c in codes):
+        print("INCONCLUSIVE: worker exit codes %s" % codes, flush=True)
+        return 2
+    return rc
